@@ -1,6 +1,7 @@
 import RockitModel.Proofs.Objective
 import Mathlib.Algebra.Module.Prod
 import Mathlib.Tactic.FieldSimp
+import RockitModel.Proofs.RKTie
 /-!
 # C05 — the NLP objective is the sum of the declared Mayer, sum and integral terms
 -/
@@ -138,5 +139,21 @@ end weights
 /-! non-vacuity -/
 example : ((collocCoeff [(1:ℚ)]).B) = [1] := by
   simp [collocCoeff, LP.basis, LP.others, LP.lagrange, LP.integ01, LP.integ01Aux]
+
+
+/-! ### the quadrature output as written in the source is the model's -/
+section source_tie
+variable {K V Q : Type} [Field K] [CharZero K] [AddCommGroup V] [Module K V] [AddCommGroup Q] [Module K Q]
+
+theorem source_quadrature_as_expected :
+    Rockit.Generated.rk4Qf = RKTie.expectedRk4Qf ∧ Rockit.Generated.eulerQf = [⟨"k.quad", 1, 1, 1, 0⟩] := by decide
+
+/-- `qf` of `intg_rk` (the weights `DT/6·(1,2,2,1)` on the quadrature right-hand side at the four stages) is `rk4Step.qf` -/
+theorem source_rk4_quadrature_is_model (f : V → K → V × Q) (x : V) (t0 DT DTc : K) :
+    RKTie.interp RKTie.expectedRk4Qf (RKTie.quadVal (RKTie.runStages (K := K) RKTie.expectedRk4StageX RKTie.expectedRk4StageT f x t0 DT DTc)) DT DTc
+      = (rk4Step f x t0 DT DTc).qf :=
+  (RKTie.rk4_source_is_model f x t0 DT DTc).2
+
+end source_tie
 
 end Rockit.C05
